@@ -338,7 +338,8 @@ BackupOpened(r) ==
   /\ r.dir \in DOMAIN bk
   /\ Observed(r, r.kv)
   /\ r.kv = bk[r.dir]
-  /\ UNCHANGED absvars
+  /\ bk' = [d \in (DOMAIN bk) \ {r.dir} |-> bk[d]]       \* examined: the candidate instants collapse to the one that matches
+  /\ UNCHANGED <<kv, pend, mode, back, cfg, seq, ver, acked, floor, closing, closedLin, img, scans, everPut, held>>
 
 -----------------------------------------------------------------------------
 (* Held slices (C14)                                                        *)
